@@ -220,6 +220,7 @@ pub fn bdd_query(v: &Value) -> Value {
     }
     let mut deps: Vec<usize> = bdd.var_dependencies(f).iter().map(|x| x.value()).collect();
     deps.sort();
+    let depth_fresh = bdd.max_depth(f);
     let fc_t = adf.formulacounts(true);
     let fc_f = adf.formulacounts(false);
     json!({
@@ -228,6 +229,7 @@ pub fn bdd_query(v: &Value) -> Value {
         "models": {"true": mcj(bdd.models(f, true)), "false": mcj(bdd.models(f, false))},
         "formulacounts": {"true": mcj(fc_t[fi]), "false": mcj(fc_f[fi])},
         "max_depth": bdd.max_depth(f),
+        "max_depth_fresh": depth_fresh,
         "deps": deps,
         "passive": (0..n).map(|x| bdd.passive_var_impact(Var(x), &adf.ac)).collect::<Vec<_>>(),
         "active": (0..n).map(|x| bdd.active_var_impact(Var(x), &adf.ac)).collect::<Vec<_>>(),
